@@ -326,13 +326,21 @@ func (m apiNoBodyStruct) Request(ctx context.Context, req http.RequestGetter, fi
 				ok = true
 				break
 			}
+			// a nested source that HAS a value which cannot be converted is an error, not an absent source
+			if me, isMeta := err.(meta.Error); isMeta && me.Code.Behavior() == meta.ErrConvert {
+				p.Recycle()
+				return "", err
+			}
 		}
 		p.WriteFieldBegin(f.Name(), f.Type().Type(), f.ID())
 		if !ok || val == "" {
 			p.WriteDefaultOrEmpty(f)
 		} else {
 			// TODO: pass conv options to decide
-			p.WriteStringWithDesc(val, f.Type(), opts.DisallowUnknownField, !opts.NoBase64Binary)
+			if err := p.WriteStringWithDesc(val, f.Type(), opts.DisallowUnknownField, !opts.NoBase64Binary); err != nil {
+				p.Recycle()
+				return "", meta.NewError(meta.ErrConvert, fmt.Sprintf("api.no_body_struct: cannot convert the http value of field '%s'", f.Name()), err)
+			}
 		}
 		// p.WriteFieldEnd()
 	}
